@@ -242,7 +242,7 @@ func wireValid(p *harness.Pkg, op *harness.Op, wire []byte) (msg string) {
 	if err != nil {
 		return "route: " + err.Error()
 	}
-	if route.Path != op.Path && strings.TrimSuffix(route.Path, "/") == strings.TrimSuffix(op.Path, "/") {
+	if route.Path != op.Path && shapeOf(route.Path) == shapeOf(op.Path) {
 		// kin-openapi v0.38's router does not distinguish "/x" from "/x/": the validator is not a reliable judge here
 		return "quirk"
 	}
@@ -666,4 +666,23 @@ func headOf(s []string, n int) []string {
 		return s[:n]
 	}
 	return s
+}
+
+// shapeOf reduces a path template to what kin-openapi v0.38's router distinguishes: variable names and a
+// trailing slash are ignored by it.
+func shapeOf(tpl string) string {
+	var b strings.Builder
+	in := false
+	for _, c := range strings.TrimSuffix(tpl, "/") {
+		switch {
+		case c == '{':
+			in = true
+			b.WriteString("{}")
+		case c == '}':
+			in = false
+		case !in:
+			b.WriteRune(c)
+		}
+	}
+	return b.String()
 }
